@@ -9,6 +9,7 @@ import (
 	"go/token"
 	"go/types"
 	"math/big"
+	"os"
 	"sort"
 	"strings"
 
@@ -446,7 +447,10 @@ func ruleNoNilResultWithNilErrorMsg(w *World, r *Report, rule string, entries []
 // knows (tcp, tcp4, tcp6, unix, unixpacket): an allow-list copied from somewhere else silently sends the other
 // spellings through the upstreams (or nowhere).
 func c16DirectDialCoversStreamNetworks(w *World, r *Report) {
-	rule := "R16.9"
+	ruleDirectDialUsesSchemeAsNetwork(w, r, "R16.9")
+}
+
+func ruleDirectDialUsesSchemeAsNetwork(w *World, r *Report, rule string) {
 	cd := w.SSAFunc(w.Method("internal/client/listener", "AbstractListener", "ConnectDirectly"))
 	key := "method:(*client/listener.AbstractListener).ConnectDirectly|dial-networks"
 	if cd == nil {
@@ -1432,6 +1436,19 @@ func c06NoWriteIntoNilHeaderMap(w *World, r *Report) {
 					st := ev.(*ssa.Store)
 					if e.State.Resolve(st.Addr.(*ssa.FieldAddr).X) == ssa.Value(al) && !isConstNil(st.Val) {
 						set = true
+					}
+				}
+				// the object is a copy of a package-level value: its map is THAT value's map, shared by every call
+				if !set && al.Referrers() != nil {
+					for _, ref := range *al.Referrers() {
+						whole, ok := ref.(*ssa.Store)
+						if !ok || whole.Addr != ssa.Value(al) {
+							continue
+						}
+						if g := codecGlobal(whole.Val); g != nil {
+							bad = fmt.Sprintf("%s: %s.%s writes into the %s of a copy of the package-level value %s (%s): copying the struct copies the map header, not the map — every handshake of the process writes the same map: what one connection's refusal stored is sent to the next, and two handshakes at once end the process with 'concurrent map writes'", w.Pos(call.Pos()), fld.Name(), f.Name(), fld.Name(), g.Name(), w.Pos(whole.Pos()))
+							return
+						}
 					}
 				}
 				if !set {
@@ -3108,7 +3125,9 @@ func c18StartupRunsOncePerServer(w *World, r *Report) {
 // way out of such a step — unless the connection was found closed — has stored some codec: the next step
 // dereferences it (`Encoder.Name()`), a nil codec there is a crash of the client that only the answers of the
 // DNS path decide.
-func c11CodecCommitFollowsItsProbe(w *World, r *Report) { ruleCodecCommitFollowsItsProbe(w, r, "R11.13") }
+func c11CodecCommitFollowsItsProbe(w *World, r *Report) {
+	ruleCodecCommitFollowsItsProbe(w, r, "R11.13")
+}
 
 func ruleCodecCommitFollowsItsProbe(w *World, r *Report, rule string) {
 	cdc := w.Named("internal/streams/dns", "ClientDnsConnection")
@@ -3494,4 +3513,829 @@ func tableMissExcludes(w *World, v ssa.Value, key string) bool {
 		}
 	}
 	return false
+}
+
+// c10DecodedResponseIsNeverBlank: R10.16 — a response decoder that reports success has put something into its
+// receiver: an answer object on which NO field was stored reaches the client as a well-formed, zero-valued
+// answer (`{FragmentSize: 0, Err: nil}` looks like a granted probe). The classic way in is
+// `str, err := buf.ReadString(0); if err != io.EOF { return errors.WithStack(err) }`: when the delimiter IS found
+// err is nil, WithStack(nil) is nil, and the function "succeeds" before Err is set.
+func c10DecodedResponseIsNeverBlank(w *World, r *Report) {
+	rule := "R10.16"
+	iface := w.Interface("internal/streams/dns/commands", "Response")
+	if iface == nil {
+		r.Undecided(rule, "anchor", "-", "anchor unresolved: commands.Response")
+		return
+	}
+	roleTypes := commandRoleTypes(w, "Response")
+	n := 0
+	for _, nt := range w.Implementers(iface) {
+		if !roleTypes[nt] {
+			continue
+		}
+		st, ok := nt.Underlying().(*types.Struct)
+		if !ok || st.NumFields() == 0 {
+			continue
+		}
+		fn := w.SSAFunc(methodOf(nt, "Decode"))
+		if fn == nil || len(fn.Params) == 0 {
+			continue
+		}
+		n++
+		key := "type:" + qualName(nt) + "|decode-stores"
+		recv := fn.Params[0]
+		isFieldStore := func(in ssa.Instruction) bool {
+			s, ok := in.(*ssa.Store)
+			if !ok {
+				return false
+			}
+			fa, ok := s.Addr.(*ssa.FieldAddr)
+			if !ok {
+				return false
+			}
+			for _, root := range provenance(fa.X, provOpts{}) {
+				if root == ssa.Value(recv) {
+					return true
+				}
+			}
+			return fa.X == ssa.Value(recv)
+		}
+		// stores made by helpers that are handed the receiver
+		isEvent := func(in ssa.Instruction) bool {
+			if isFieldStore(in) {
+				return true
+			}
+			if c, ok := in.(ssa.CallInstruction); ok {
+				if sc := c.Common().StaticCallee(); sc != nil && inModule(sc) && len(sc.Blocks) > 0 {
+					for i, a := range c.Common().Args {
+						for _, root := range provenance(a, provOpts{}) {
+							if root == ssa.Value(recv) && i < len(sc.Params) {
+								// a helper that fills in fields of the answer (not a getter)
+								stores := false
+								allInstrs(sc, func(x ssa.Instruction) {
+									if s2, ok := x.(*ssa.Store); ok {
+										if fa2, ok := s2.Addr.(*ssa.FieldAddr); ok && fa2.X == ssa.Value(sc.Params[i]) {
+											stores = true
+										}
+									}
+								})
+								if stores {
+									return true
+								}
+							}
+							if fa, ok := root.(*ssa.FieldAddr); ok && fa.X == ssa.Value(recv) {
+								return true // &vr.Field handed to a reader (binary.Read(buf, order, &vr.X))
+							}
+						}
+					}
+				}
+				// binary.Read(buf, order, &vr.Field)
+				for _, a := range c.Common().Args {
+					for _, root := range provenance(a, provOpts{}) {
+						if fa, ok := root.(*ssa.FieldAddr); ok {
+							for _, r2 := range provenance(fa.X, provOpts{}) {
+								if r2 == ssa.Value(recv) {
+									return true
+								}
+							}
+						}
+					}
+				}
+			}
+			return false
+		}
+		bad := ""
+		nsucc := 0
+		okp := enumPaths(fn, nil, isEvent, nil, func(e pathExit) {
+			ret, isRet := e.Last.(*ssa.Return)
+			if !isRet || len(ret.Results) == 0 || bad != "" {
+				return
+			}
+			if os.Getenv("SACHECK_DEBUG") != "" {
+				fmt.Fprintf(os.Stderr, "DEBUG R10.16 %s ret@%s maybeNil=%v events=%d\n", nt.Obj().Name(), w.Pos(ret.Pos()), errMaybeNil(e.State, ret.Results[len(ret.Results)-1], 0), len(e.State.Events))
+				for _, ev := range e.State.Events {
+					fmt.Fprintf(os.Stderr, "   ev %s @%s\n", ev.String(), w.Pos(ev.Pos()))
+				}
+			}
+			if !errMaybeNil(e.State, ret.Results[len(ret.Results)-1], 0) {
+				return
+			}
+			// the error of ReadString(d) is nil only if the delimiter occurs in the text: for an answer of the
+			// tunnel's own server that is the case iff the encoder of this type writes d after the text
+			// an explicit `return nil` is a decision (an empty answer is an answer); what is looked for is the accidental
+			// success: a wrapped error variable that turns out nil
+			rv := e.State.Resolve(ret.Results[len(ret.Results)-1])
+			if isConstNil(rv) {
+				return
+			}
+			if d, isRS := readStringDelimiterOf(rv); isRS && !encoderTerminatesText(w.SSAFunc(methodOf(nt, "Encode")), d) {
+				return
+			}
+			nsucc++
+			if len(e.State.Events) == 0 {
+				bad = fmt.Sprintf("%s: Decode can return a nil error here without having stored anything into the answer (errors.WithStack/Wrap of a nil error is nil — e.g. ReadString found its delimiter): the client receives a well-formed, zero-valued %s — a refusal arrives as a granted, empty answer", w.Pos(ret.Pos()), nt.Obj().Name())
+			}
+		})
+		if !okp {
+			r.Undecided(rule, key, w.Pos(fn.Pos()), "path budget exceeded")
+			continue
+		}
+		r.Check(bad == "", rule, key, w.Pos(fn.Pos()), fmt.Sprintf("%d return path(s) whose wrapped error can turn out nil, each after a store into the answer", nsucc), bad)
+	}
+	if n == 0 {
+		r.Undecided(rule, "types", "-", "no response type found")
+	}
+}
+
+// readStringDelimiterOf: v is (a pkg/errors wrapping of) the error result of (*bytes.Buffer).ReadString(d), d constant.
+func readStringDelimiterOf(v ssa.Value) (int64, bool) {
+	for i := 0; i < 4; i++ {
+		c, ok := v.(*ssa.Call)
+		if !ok {
+			break
+		}
+		f := sCallee(c)
+		if f == nil || f.Pkg() == nil || f.Pkg().Path() != "github.com/pkg/errors" || len(c.Call.Args) == 0 {
+			break
+		}
+		v = c.Call.Args[0]
+	}
+	for _, root := range provenance(v, provOpts{}) {
+		ex, ok := root.(*ssa.Extract)
+		if !ok || ex.Index != 1 {
+			continue
+		}
+		c, ok := ex.Tuple.(*ssa.Call)
+		if !ok || !isMethod(sCallee(c), "bytes", "Buffer", "ReadString") || len(c.Call.Args) < 2 {
+			continue
+		}
+		if d, isC := constIntVal(c.Call.Args[1]); isC {
+			return d, true
+		}
+	}
+	return 0, false
+}
+
+// encoderTerminatesText: does enc write the byte d after (dominated by) a WriteString / Write of a text?
+func encoderTerminatesText(enc *ssa.Function, d int64) bool {
+	if enc == nil {
+		return true // unknown: assume it can
+	}
+	var texts, terms []ssa.Instruction
+	for _, g := range staticCone(enc, 1) {
+		if g != enc {
+			continue
+		}
+		allInstrs(g, func(in ssa.Instruction) {
+			c, ok := in.(*ssa.Call)
+			if !ok {
+				return
+			}
+			f := sCallee(c)
+			if isMethod(f, "bytes", "Buffer", "WriteString") {
+				texts = append(texts, in)
+			}
+			if isMethod(f, "bytes", "Buffer", "WriteByte") && len(c.Call.Args) == 2 {
+				if k, isC := constIntVal(c.Call.Args[1]); isC && k == d {
+					terms = append(terms, in)
+				}
+			}
+		})
+	}
+	for _, t := range terms {
+		for _, x := range texts {
+			if instrDominates(x, t) {
+				return true
+			}
+		}
+	}
+	return false
+}
+
+// ruleNoTypedNilResult: a function whose result is an interface must not hand back a nil POINTER of a concrete
+// type wrapped into that interface: `stream, err := open(); return stream, err` with `open` returning
+// (*T)(nil) on failure gives the caller a non-nil interface — its `if x != nil` guards (TryClose, LogClose) no
+// longer protect it and the first method call on the nil pointer crashes the process. Every return that converts
+// the pointer result of a module function to an interface is on a path on which that call's error is known nil,
+// or the callee never returns a nil pointer.
+func ruleNoTypedNilResult(w *World, r *Report, rule string, fns []*ssa.Function, consequence string) {
+	n := 0
+	for _, fn := range fns {
+		hasIface := false
+		res := fn.Signature.Results()
+		for i := 0; i < res.Len(); i++ {
+			if _, ok := res.At(i).Type().Underlying().(*types.Interface); ok && !isErrorType(res.At(i).Type()) {
+				hasIface = true
+			}
+		}
+		if !hasIface || len(fn.Blocks) == 0 {
+			continue
+		}
+		n++
+		key := "func:" + ssaFuncKey(fn) + "|typed-nil"
+		bad := ""
+		okp := enumPaths(fn, nil, nil, nil, func(e pathExit) {
+			ret, isRet := e.Last.(*ssa.Return)
+			if !isRet || bad != "" {
+				return
+			}
+			for i, rv := range ret.Results {
+				if i >= res.Len() || isErrorType(res.At(i).Type()) {
+					continue
+				}
+				mi, ok := e.State.Resolve(rv).(*ssa.MakeInterface)
+				if !ok {
+					continue
+				}
+				if _, isPtr := mi.X.Type().Underlying().(*types.Pointer); !isPtr {
+					continue
+				}
+				x := e.State.Resolve(mi.X)
+				if isConstNil(x) {
+					bad = fmt.Sprintf("%s: returns the nil pointer of type %s as %s: the interface is not nil", w.Pos(ret.Pos()), mi.X.Type(), res.At(i).Type())
+					return
+				}
+				ex, ok := x.(*ssa.Extract)
+				if !ok {
+					continue
+				}
+				call, ok := ex.Tuple.(*ssa.Call)
+				if !ok {
+					continue
+				}
+				h := call.Call.StaticCallee()
+				if h == nil || !inModule(h) || len(h.Blocks) == 0 {
+					continue
+				}
+				// can h return a nil pointer in that position?
+				nilPossible := false
+				allInstrs(h, func(in ssa.Instruction) {
+					if hr, ok := in.(*ssa.Return); ok && ex.Index < len(hr.Results) {
+						for _, root := range provenance(hr.Results[ex.Index], provOpts{}) {
+							if isConstNil(root) {
+								nilPossible = true
+							}
+						}
+					}
+				})
+				if !nilPossible {
+					continue
+				}
+				// on this path, is the call's error known nil (then the pointer is the good one)?
+				safe := false
+				if call.Referrers() != nil {
+					for _, ref := range *call.Referrers() {
+						if ee, ok := ref.(*ssa.Extract); ok && isErrorType(ee.Type()) {
+							if isNil, known := e.State.NilKnown(ee); known && isNil {
+								safe = true
+							}
+						}
+					}
+				}
+				if isNil, known := e.State.NilKnown(x); known && !isNil {
+					safe = true
+				}
+				if !safe {
+					bad = fmt.Sprintf("%s: the %s that %s returns — nil when it fails — is converted to %s and returned without the error having been tested: on failure the caller receives a non-nil interface holding a nil pointer", w.Pos(ret.Pos()), mi.X.Type(), ssaFuncKey(h), res.At(i).Type())
+				}
+			}
+		})
+		if !okp {
+			r.Undecided(rule, key, w.Pos(fn.Pos()), "path budget exceeded")
+			continue
+		}
+		r.Check(bad == "", rule, key, w.Pos(fn.Pos()), "no nil pointer of a concrete type is returned inside an interface result", bad+consequence)
+	}
+	if n == 0 {
+		r.Hold(rule, "funcs:none", "-", "no function with an interface result in scope")
+	}
+}
+
+// ruleNoPanickingAssertionOnPeerPath: a type assertion without comma-ok panics when the value is nil or of
+// another type. On the goroutine that serves one logical connection nothing recovers: the panic takes down the
+// process and with it every other connection. In the server's per-connection code every such assertion is on a
+// value whose dynamic type is certain (it was just built from that concrete type).
+func ruleNoPanickingAssertionOnPeerPath(w *World, r *Report, rule string, fns []*ssa.Function, consequence string) {
+	n := 0
+	var bad []string
+	for _, fn := range fns {
+		allInstrs(fn, func(in ssa.Instruction) {
+			ta, ok := in.(*ssa.TypeAssert)
+			if !ok || ta.CommaOk {
+				return
+			}
+			n++
+			certain := true
+			roots := provenance(ta.X, provOpts{})
+			if len(roots) == 0 {
+				certain = false
+			}
+			for _, root := range roots {
+				mi, ok := root.(*ssa.MakeInterface)
+				if !ok || !types.Identical(mi.X.Type(), ta.AssertedType) {
+					certain = false
+				}
+			}
+			if !certain {
+				bad = append(bad, fmt.Sprintf("%s: %s asserts %s without comma-ok on a value that can be nil or of another type (%s)", w.Pos(ta.Pos()), ssaFuncKey(fn), ta.AssertedType, describeValue(w, ta.X)))
+			}
+		})
+	}
+	sort.Strings(bad)
+	r.Check(len(bad) == 0, rule, "assertions:per-connection-code", "-", fmt.Sprintf("%d type assertion(s) without comma-ok, each on a value just built from that type", n), strings.Join(bad, "; ")+consequence)
+}
+
+// c11ProbeHeaderCoversDataHeader: R11.14 — the downstream fragment size is found by asking the server for answers
+// of a given payload size and is then used for data answers. What the probe verifies is "header + payload fits
+// the path"; it carries over to data answers only if the data answer's header is no longer than the probe
+// answer's. (Both are 5 bytes: status + 4, status + ack + seq.)
+func c11ProbeHeaderCoversDataHeader(w *World, r *Report) {
+	rule := "R11.14"
+	key := "pair:TestDownstreamFragmentSizeResponse~PacketResponse|header-width"
+	probeT := w.Named("internal/streams/dns/commands", "TestDownstreamFragmentSizeResponse")
+	dataT := w.Named("internal/streams/dns/commands", "PacketResponse")
+	pe, de := w.SSAFunc(methodOf(probeT, "Encode")), w.SSAFunc(methodOf(dataT, "Encode"))
+	if pe == nil || de == nil {
+		r.Undecided(rule, key, "-", "anchor unresolved")
+		return
+	}
+	widths := func(fn *ssa.Function) (min, max int, n int, why string) {
+		li := extractLayout(w, fn, nil, true, 0)
+		if li.Undecided != "" {
+			return 0, 0, 0, li.Undecided
+		}
+		min, max = 1<<30, -1
+		for _, p := range li.Paths {
+			// the payload-carrying layouts: ... blob at the end, after at least the status byte; error texts (status
+			// with the error flag) are not payload
+			last := -1
+			for i, op := range p.Ops {
+				if op.Kind == "blob" && op.Field != "" && !strings.Contains(op.Field, "Err") {
+					last = i
+				}
+			}
+			if last < 0 {
+				continue
+			}
+			wd := 0
+			for _, op := range p.Ops[:last] {
+				if op.Size <= 0 {
+					return 0, 0, 0, "a header field of unknown width before the payload"
+				}
+				wd += op.Size
+			}
+			n++
+			if wd < min {
+				min = wd
+			}
+			if wd > max {
+				max = wd
+			}
+		}
+		return
+	}
+	pmin, _, pn, pwhy := widths(pe)
+	_, dmax, dn, dwhy := widths(de)
+	if pwhy != "" || dwhy != "" || pn == 0 || dn == 0 {
+		r.Undecided(rule, key, w.Pos(pe.Pos()), "payload layouts not recognised: "+pwhy+dwhy+mapStr(pn == 0, " no payload path in the probe answer")+mapStr(dn == 0, " no payload path in the data answer"))
+		return
+	}
+	r.Check(pmin >= dmax, rule, key, w.Pos(pe.Pos()), fmt.Sprintf("probe answer header %d byte(s) >= data answer header %d byte(s)", pmin, dmax),
+		fmt.Sprintf("the probe answer carries %d header byte(s) before its payload, the data answer %d: a payload size the probe has verified makes a data answer %d byte(s) larger than anything that was verified — on a path where the record holds one host name the handshake succeeds and the first full-size answer can never be sent", pmin, dmax, dmax-pmin))
+}
+
+// c15ListenerLoopSurvivesAcceptErrors: R15.8 — an endpoint's accept loop is the only thing that ever serves its
+// listener. An Accept error is usually transient (EMFILE when stalled peers hold the descriptors, ENOBUFS, a
+// handshake error of a wrapped listener): the loop must go on. It may leave only on the server's own shutdown
+// flag, or where the error says the listener itself is closed — never on a classification of the error such as
+// "not a timeout", which turns one failure caused by some peers into a dead endpoint for all the others.
+func c15ListenerLoopSurvivesAcceptErrors(w *World, r *Report) {
+	rule := "R15.8"
+	n := 0
+	for _, al := range findAcceptLoops(w) {
+		if al.Kind != "listener" || al.Outer != nil {
+			continue
+		}
+		top := al.Fn
+		for top.Parent() != nil {
+			top = top.Parent()
+		}
+		if top.Pkg == nil || !strings.HasSuffix(top.Pkg.Pkg.Path(), "/internal/server") {
+			continue // the server's endpoints; the client's local listener is stopped through a channel
+		}
+		n++
+		key := "loop:" + ssaFuncKey(al.Fn) + "|survives-accept-errors"
+		fn := al.Fn
+		isDoneLoad := func(v ssa.Value) bool {
+			for _, root := range provenance(v, provOpts{}) {
+				u, ok := root.(*ssa.UnOp)
+				if !ok {
+					continue
+				}
+				fa, ok := u.X.(*ssa.FieldAddr)
+				if !ok {
+					continue
+				}
+				if b, ok := fieldVarOf(fa).Type().Underlying().(*types.Basic); ok && b.Kind() == types.Bool {
+					return true // a boolean field of the server object: its shutdown flag
+				}
+			}
+			if c, ok := v.(*ssa.Call); ok {
+				if h := c.Call.StaticCallee(); h != nil && inModule(h) && h.Signature.Results().Len() == 1 {
+					// `st.stopped()` accessor
+					only := true
+					found := false
+					allInstrs(h, func(in ssa.Instruction) {
+						if ret, ok := in.(*ssa.Return); ok && len(ret.Results) == 1 {
+							for _, root := range provenance(ret.Results[0], provOpts{}) {
+								if u, ok := root.(*ssa.UnOp); ok {
+									if fa, ok := u.X.(*ssa.FieldAddr); ok {
+										if b, ok := fieldVarOf(fa).Type().Underlying().(*types.Basic); ok && b.Kind() == types.Bool {
+											found = true
+											continue
+										}
+									}
+								}
+								only = false
+							}
+						}
+					})
+					return found && only
+				}
+			}
+			return false
+		}
+		saysClosed := func(v ssa.Value) bool {
+			c, ok := v.(*ssa.Call)
+			if !ok {
+				return false
+			}
+			f := sCallee(c)
+			if f != nil && f.Pkg() != nil && f.Pkg().Path() == "strings" && f.Name() == "Contains" && len(c.Call.Args) == 2 {
+				s, isC := constStrVal(c.Call.Args[1])
+				return isC && strings.Contains(s, "closed network connection")
+			}
+			if f != nil && f.Pkg() != nil && f.Pkg().Path() == "errors" && f.Name() == "Is" && len(c.Call.Args) == 2 {
+				if g := codecGlobal(c.Call.Args[1]); g != nil && g.Name() == "ErrClosed" {
+					return true
+				}
+			}
+			if h := c.Call.StaticCallee(); h != nil && inModule(h) && len(h.Blocks) > 0 {
+				return predicateHelperImplies(h, true, func(facts map[ssa.Value]bool) bool {
+					for v2, t2 := range facts {
+						if c2, ok := v2.(*ssa.Call); ok && t2 {
+							if f2 := sCallee(c2); f2 != nil && f2.Pkg() != nil && f2.Pkg().Path() == "strings" && f2.Name() == "Contains" && len(c2.Call.Args) == 2 {
+								if s, isC := constStrVal(c2.Call.Args[1]); isC && strings.Contains(s, "closed network connection") {
+									return true
+								}
+							}
+						}
+					}
+					return false
+				})
+			}
+			return false
+		}
+		bad := ""
+		nexits := 0
+		for b := range al.Loop {
+			for si, succ := range b.Succs {
+				if al.Loop[succ] {
+					continue
+				}
+				nexits++
+				// the condition that sends control out of the loop here
+				ifi, ok := b.Instrs[len(b.Instrs)-1].(*ssa.If)
+				justified := false
+				if ok {
+					cond := ifi.Cond
+					neg := si == 1
+					if u, isNot := cond.(*ssa.UnOp); isNot && u.Op == token.NOT {
+						cond, neg = u.X, !neg
+					}
+					if isDoneLoad(cond) {
+						justified = true
+					}
+					if !neg && saysClosed(cond) {
+						justified = true
+					}
+				}
+				// an unconditional jump out (break inside a branch): the branch it sits in must be a done/closed branch
+				if !justified {
+					if dominatedByCond(fn, b.Instrs[len(b.Instrs)-1], isDoneLoad, true) || dominatedByCond(fn, b.Instrs[len(b.Instrs)-1], saysClosed, true) {
+						justified = true
+					}
+				}
+				if !justified && bad == "" {
+					bad = fmt.Sprintf("%s: the accept loop can be left here on a condition that is neither the server's shutdown flag nor 'the listener is closed': an Accept error that merely is not a timeout (EMFILE while stalled peers hold the descriptors, ENOBUFS) ends the loop, the listener stays open, and every later client waits in the backlog for ever", w.Pos(b.Instrs[len(b.Instrs)-1].Pos()))
+				}
+			}
+		}
+		r.Check(bad == "", rule, key, w.Pos(al.Call.Pos()), fmt.Sprintf("%d way(s) out of the loop, each on the shutdown flag or a closed listener", nexits), bad)
+	}
+	if n == 0 {
+		r.Undecided(rule, "loops", "-", "no listener accept loop found")
+	}
+}
+
+// ruleSharedConnectionForgottenOnlyWhenDead: the configured Upstream object IS the net.Conn handed to the
+// multiplexer, and a re-dial stores the new physical connection into that same object. Forgetting the shared
+// connection/session (storing nil) while the old session is still alive makes the next Connect re-dial under a
+// living session: two sessions then write frames into one physical connection and the bytes of one logical
+// connection arrive at another's target. The fields are set to nil only where the reuse test has just found the
+// connection nil or closed, or after it was closed on that path.
+func ruleSharedConnectionForgottenOnlyWhenDead(w *World, r *Report, rule string) {
+	ups := w.Named("internal/client/upstream", "Upstreams")
+	connF, sessF := fieldOf(ups, "connection"), fieldOf(ups, "session")
+	if ups == nil || connF == nil || sessF == nil {
+		r.Undecided(rule, "type:client/upstream.Upstreams", "-", "anchor unresolved")
+		return
+	}
+	unusable := func(v ssa.Value, t bool) bool {
+		if x, eqNil, ok := nilTest(v); ok && isLoadOfField(x, connF) {
+			return t == eqNil
+		}
+		if c, ok := v.(*ssa.Call); ok && c.Call.IsInvoke() && c.Call.Method.Name() == "Closed" && t {
+			for _, root := range provenance(c.Call.Value, provOpts{}) {
+				if isLoadOfField(root, connF) {
+					return true
+				}
+			}
+		}
+		if hc, ok := v.(*ssa.Call); ok {
+			if h := hc.Call.StaticCallee(); h != nil && inModule(h) && len(h.Blocks) > 0 {
+				return predicateHelperImplies(h, t, func(facts map[ssa.Value]bool) bool {
+					for v2, t2 := range facts {
+						if x, eqNil, ok := nilTest(v2); ok && isLoadOfField(x, connF) && t2 == eqNil {
+							return true
+						}
+						if c2, ok := v2.(*ssa.Call); ok && c2.Call.IsInvoke() && c2.Call.Method.Name() == "Closed" && t2 {
+							return true
+						}
+					}
+					return false
+				})
+			}
+		}
+		return false
+	}
+	n := 0
+	for _, fn := range pkgFuncs(w, "/internal/client/upstream") {
+		k := 0
+		allInstrs(fn, func(in ssa.Instruction) {
+			st, ok := in.(*ssa.Store)
+			if !ok || !isConstNil(st.Val) {
+				return
+			}
+			fa, ok := st.Addr.(*ssa.FieldAddr)
+			if !ok {
+				return
+			}
+			fv := fieldVarOf(fa)
+			if fv != connF && fv != sessF {
+				return
+			}
+			n++
+			k++
+			key := fmt.Sprintf("field:client/upstream.Upstreams.%s|forget@%s#%d", fv.Name(), ssaFuncKey(fn), k)
+			isClose := func(x ssa.Instruction) bool {
+				c, ok := x.(ssa.CallInstruction)
+				if !ok {
+					return false
+				}
+				return isCloseOn(w, c, func(v ssa.Value) bool {
+					for _, root := range provenance(v, provOpts{}) {
+						if isLoadOfField(root, connF) || isLoadOfField(root, sessF) {
+							return true
+						}
+					}
+					return false
+				})
+			}
+			msg := fmt.Sprintf("the shared %s is set to nil on a path on which it was neither found nil/closed nor closed: the session it belongs to lives on (its send loop holds the configured Upstream object), the next Connect re-dials INTO that object, and two sessions write frames into one physical connection — bytes written on one logical connection arrive at another's target", fv.Name())
+			// justifiedAt: every path of g to `at` has closed the connection or found it nil/closed — or, for a helper
+			// that makes no test of its own, every call site of the helper is justified in its caller
+			var justifiedAt func(g *ssa.Function, at ssa.Instruction, depth int) (bool, bool)
+			justifiedAt = func(g *ssa.Function, at ssa.Instruction, depth int) (ok bool, decided bool) {
+				local := true
+				okp := enumPaths(g, nil, isClose, func(x ssa.Instruction) bool { return x == at }, func(e pathExit) {
+					if e.Stop == nil || !local {
+						return
+					}
+					if len(e.State.Events) > 0 {
+						return
+					}
+					for v, t := range e.State.Facts {
+						if unusable(v, t) {
+							return
+						}
+					}
+					local = false
+				})
+				if !okp {
+					return false, false
+				}
+				if local {
+					return true, true
+				}
+				obj, _ := g.Object().(*types.Func)
+				if obj == nil || depth >= 2 {
+					return false, true
+				}
+				ncall := 0
+				for _, caller := range pkgFuncs(w, "/internal/client/upstream") {
+					for _, c := range callsIn(caller) {
+						if sCallee(c) == obj && !c.Common().IsInvoke() {
+							ncall++
+							if _, isGo := c.(*ssa.Go); isGo {
+								return false, true
+							}
+							o, d := justifiedAt(caller, c.(ssa.Instruction), depth+1)
+							if !d {
+								return false, false
+							}
+							if !o {
+								return false, true
+							}
+						}
+					}
+				}
+				return ncall > 0, true
+			}
+			bad := ""
+			okj, decided := justifiedAt(fn, in, 0)
+			okp := decided
+			if decided && !okj {
+				bad = msg
+			}
+			if !okp {
+				r.Undecided(rule, key, w.Pos(st.Pos()), "path budget exceeded")
+				return
+			}
+			r.Check(bad == "", rule, key, w.Pos(st.Pos()), "forgotten only where the connection was found nil/closed, or after closing it", bad)
+		})
+	}
+	if n == 0 {
+		r.Hold(rule, "field:client/upstream.Upstreams|forget:none", "-", "the shared connection/session are never set to nil")
+	}
+}
+
+// c07EveryWaiterIsWoken: R07.21 — a reader that gave up on its deadline leaves its notifier on the in-queue's list
+// (by design: the notifier is buffered and harmless). When data arrives the queue must therefore call EVERY
+// registered notifier: calling only the first one can spend the wake-up on a reader that is gone, and the live
+// reader behind it sleeps on queued, acknowledged data for ever.
+func c07EveryWaiterIsWoken(w *World, r *Report) {
+	rule := "R07.21"
+	inq := w.Named("internal/streams/dns/util", "InQueue")
+	key := "type:streams/dns/util.InQueue|notify-all"
+	if inq == nil {
+		r.Undecided(rule, key, "-", "anchor unresolved")
+		return
+	}
+	// the list of waiters: a field of type []func()
+	var listF *types.Var
+	st := inq.Underlying().(*types.Struct)
+	for i := 0; i < st.NumFields(); i++ {
+		if sl, ok := st.Field(i).Type().Underlying().(*types.Slice); ok {
+			if sig, ok := sl.Elem().Underlying().(*types.Signature); ok && sig.Params().Len() == 0 {
+				listF = st.Field(i)
+			}
+		}
+	}
+	if listF == nil {
+		r.Hold(rule, key, "-", "the in-queue keeps no list of waiter callbacks")
+		return
+	}
+	nAll := 0
+	bad := ""
+	for _, fn := range pkgFuncs(w, "/internal/streams/dns/util") {
+		for _, c := range callsIn(fn) {
+			cc := c.Common()
+			if cc.IsInvoke() || cc.StaticCallee() != nil {
+				continue
+			}
+			// a call of an element of the list
+			var ia *ssa.IndexAddr
+			for _, root := range provenance(cc.Value, provOpts{}) {
+				if u, ok := root.(*ssa.UnOp); ok {
+					if x, ok := u.X.(*ssa.IndexAddr); ok && isLoadOfFieldDeep(x.X, listF) {
+						ia = x
+					}
+				}
+			}
+			if ia == nil {
+				continue
+			}
+			if _, isC := constIntVal(ia.Index); isC {
+				bad = fmt.Sprintf("%s: only one registered waiter (a constant index) is notified when data arrives: a reader that timed out earlier still sits at the head of the list and swallows the wake-up — the reader that is really blocked is never woken although the data is queued and acknowledged", w.Pos(c.Pos()))
+				continue
+			}
+			if cycleThrough(c.(ssa.Instruction).Block()) != nil {
+				nAll++
+			}
+		}
+	}
+	r.Check(bad == "" && nAll > 0, rule, key, w.Pos(inq.Obj().Pos()), fmt.Sprintf("%d notification loop(s) over the whole list of waiters, no single-waiter wake-up", nAll), bad+mapStr(bad == "" && nAll == 0, "no loop that notifies the registered waiters was found"))
+}
+
+func isLoadOfFieldDeep(v ssa.Value, f *types.Var) bool {
+	for _, root := range provenance(v, provOpts{}) {
+		if isLoadOfField(root, f) {
+			return true
+		}
+	}
+	return isLoadOfField(v, f)
+}
+
+// c12ClientIndexesAnswerDataInBounds: R12.12 — the client's handshake probes look into the data of decoded answers
+// after DecodeDnsResponse has returned, i.e. outside its recover. Every index / slice expression in the
+// client-side functions of package dns is proven in bounds (A10) — an answer that is a proper prefix of what was
+// expected (truncated on the way, or sent by a hostile resolver) must be refused, not indexed.
+func c12ClientIndexesAnswerDataInBounds(w *World, r *Report) {
+	rule := "R12.12"
+	n := 0
+	clientSide := map[*ssa.Function]bool{}
+	for _, fn := range pkgFuncs(w, "/internal/streams/dns") {
+		if rn := recvNamed(fnObj(fn)); rn != nil && rn.Obj().Name() == "ClientDnsConnection" {
+			clientSide[fn] = true
+			for _, g := range staticCone(fn, 2) {
+				if g.Pkg == fn.Pkg && g.Signature.Recv() == nil {
+					clientSide[g] = true
+				}
+			}
+		}
+	}
+	for _, fn := range pkgFuncs(w, "/internal/streams/dns") {
+		top := fn
+		for top.Parent() != nil {
+			top = top.Parent()
+		}
+		if top.Pkg == nil || !strings.HasSuffix(top.Pkg.Pkg.Path(), "/internal/streams/dns") || fn.Synthetic != "" {
+			continue
+		}
+		// client side: methods of ClientDnsConnection and the free functions they call
+		if !clientSide[top] {
+			continue
+		}
+		cnt, issues := checkBounds(fn)
+		if cnt == 0 {
+			continue
+		}
+		n++
+		key := "bounds:" + ssaFuncKey(fn)
+		if len(issues) == 0 {
+			r.Hold(rule, key, w.Pos(fn.Pos()), fmt.Sprintf("%d index/slice operation(s) proven in bounds", cnt))
+			continue
+		}
+		// only expressions on the data of a decoded answer (a field of a commands.*Response / util.Packet, or a byte
+		// slice parameter of a helper that is handed one): the client's own bookkeeping slices are not peer input
+		nrep := 0
+		for _, is := range issues {
+			var base ssa.Value
+			switch x := is.Instr.(type) {
+			case *ssa.IndexAddr:
+				base = x.X
+			case *ssa.Index:
+				base = x.X
+			case *ssa.Slice:
+				base = x.X
+			case *ssa.Lookup:
+				base = x.X
+			}
+			if base == nil {
+				continue
+			}
+			fromAnswer := false
+			for _, root := range provenance(base, provOpts{}) {
+				if u, ok := root.(*ssa.UnOp); ok {
+					if fa, ok := u.X.(*ssa.FieldAddr); ok {
+						t := fa.X.Type()
+						if pt, ok := t.Underlying().(*types.Pointer); ok {
+							t = pt.Elem()
+						}
+						if nt, ok := t.(*types.Named); ok && nt.Obj().Pkg() != nil {
+							pp := nt.Obj().Pkg().Path()
+							if (strings.HasSuffix(pp, "/dns/commands") && strings.HasSuffix(nt.Obj().Name(), "Response")) || (strings.HasSuffix(pp, "/dns/util") && nt.Obj().Name() == "Packet") {
+								fromAnswer = true
+							}
+						}
+					}
+				}
+				if pa, ok := root.(*ssa.Parameter); ok && fn.Signature.Recv() == nil && isStringOrBytes(pa.Type()) {
+					fromAnswer = true
+				}
+			}
+			if !fromAnswer {
+				continue
+			}
+			nrep++
+			r.Violate(rule, key, w.Pos(is.Instr.Pos()), is.What+": an answer shorter than expected makes this expression panic outside the decoder's recover — the client process dies of one truncated or crafted answer")
+		}
+		if nrep == 0 {
+			r.Hold(rule, key, w.Pos(fn.Pos()), fmt.Sprintf("%d index/slice operation(s); those on answer data are proven in bounds", cnt))
+		}
+	}
+	if n == 0 {
+		r.Undecided(rule, "bounds", "-", "no index/slice operation found in the client-side functions (anchors moved?)")
+	}
 }
